@@ -618,6 +618,14 @@ impl<T: Qcow2IoOps> Qcow2Dev<T> {
         loop {
             match self.try_allocate_from(host_offset, count).await? {
                 Some(a) => {
+                    // The header's cluster is never free. If the refcounts
+                    // say so the image is inconsistent, and handing the
+                    // cluster out would overwrite the header.
+                    if a.0 == 0 {
+                        return Err(
+                            "refcount of the image header is zero, the image is corrupted".into(),
+                        );
+                    }
                     if count == 1 {
                         // Update the free cluster index only for `count == 1`, because otherwise
                         // (`count > 1`) we might have the index skip holes where single clusters
